@@ -1,3 +1,3 @@
 From Coq Require Import Extraction ExtrOcamlBasic ExtrOcamlString.
-From Bloch Require Import Parse.PrattModel.
-Extraction "parse_model.ml" parse_expr render add_parens strip level ropen.
+From Bloch Require Import Parse.PrattModel Parse.StmtModel.
+Extraction "parse_model.ml" parse_expr render add_parens strip level ropen parse_stmt render_stmt type_ahead.
